@@ -124,11 +124,14 @@ void median_filter(SrcView const& src_view, DstView const& dst_view, std::size_t
             src_view.height()
         );
 
+    // nth_channel_view indexes channels by memory position: pair source and destination channels by colour
+    using src_mapping_t = typename channel_mapping_type<decltype(extended_view)>::type;
+    using dst_mapping_t = typename channel_mapping_type<DstView>::type;
     for (std::size_t channel = 0; channel < extended_view.num_channels(); channel++)
     {
         detail::filter_median_impl(
-            nth_channel_view(extended_view, channel),
-            nth_channel_view(dst_view, channel),
+            nth_channel_view(extended_view, static_cast<int>(detail::physical_channel_index<src_mapping_t>(channel))),
+            nth_channel_view(dst_view, static_cast<int>(detail::physical_channel_index<dst_mapping_t>(channel))),
             kernel_size
         );
     }
